@@ -7,7 +7,7 @@ import sympy as sp
 
 from ptstat import AnalysisError
 from ptstat.symval import SymObj, Phi, SymRaise, Vec
-from ptstat.symlib import interp_f
+from ptstat.symlib import interp_f, vec_f
 from spec import neutron as spec
 from .common import eq, fsite, folder, _s
 from .nworld import neutron_world
@@ -93,12 +93,13 @@ def run(ctx):
     ctx.check(ok, "R3", "table branch is a single interpolation", f"extracted {_s(bce)}", sbw)
     if ok:
         x, xp, fp, left, right = apps[0].args
+        clamp = sp.Symbol("clamp")
         ctx.check(x == lam, "R3", "interpolation is evaluated at the wavelength", f"evaluated at {x}", sbw)
-        ctx.check(xp == XP and fp == FP, "R3", "interpolation axis is nsf_table[0], values nsf_table[1]",
-                  f"xp={xp}, fp={fp}", sbw)
-        ctx.check(left == sp.Symbol("clamp") and right == sp.Symbol("clamp"), "R3",
-                  "no left=/right= given: ends are clamped (numpy default), as documented",
-                  f"left={left}, right={right}: values outside the table are no longer the end points", sbw)
+        ctx.check(xp == vec_f(*XP.items) and fp == vec_f(*FP.items), "R3",
+                  "interpolation axis is nsf_table[0], values nsf_table[1]", f"xp={xp}, fp={fp}", sbw)
+        ctx.check(left in (clamp, FP.items[0]) and right in (clamp, FP.items[-1]), "R3",
+                  "outside the table the end-point values are used (numpy default, or the same ends given explicitly)",
+                  f"left={left}, right={right}: values outside the table are not the nearest end point", sbw)
         eq(ctx, "R3", "table branch total cross section = 4 pi/100 |b|^2", tote,
            4 * sp.pi / 100 * sp.Abs(apps[0]) ** 2, sbw)
     # mixed compound with an energy dependent atom: same equations with b := interpolated value
